@@ -8,6 +8,7 @@ import MxlVerif.Lemmas.C17
 import MxlVerif.Lemmas.C17Codegen
 import MxlVerif.Lemmas.C17Names
 import MxlVerif.Lemmas.C17Rename
+import MxlVerif.Lemmas.C17Session
 namespace Mxl.C17
 open Mxl.C08
 
@@ -100,6 +101,70 @@ theorem C17_two_docs_independent (s1 s2 d1 d2 : String) (hlen : d1.length = d2.l
   have hl : d1.toList.length = d2.toList.length := by rw [String.length_toList, String.length_toList, hlen]
   exact String.ext (List.append_inj_right' h' hl)
 
+/-! ### boundary / constant species (round 4) -/
+
+/-- a boundary / constant species takes part in reactions without being changed by them: its amount has derivative 0
+    at every state, whatever the reactions and laws (there are no rate rules in the subset) -/
+theorem C17_fixed_species_constant (I : Interp) (d : Doc) (amounts : List (String × Rat)) (x : String) (s : Species)
+    (hs : findSpecies d x = some s) (hf : s.fixed = true) : docRhs17 I d amounts x = some 0 := by
+  simp [docRhs17, hs, hf]
+
+/-- … and every other species keeps the reading of the flat document: Σ (products − reactants) · law -/
+theorem C17_free_species_rhs (I : Interp) (d : Doc) (amounts : List (String × Rat)) (x : String) (s : Species)
+    (hs : findSpecies d x = some s) (hf : s.fixed = false) :
+    docRhs17 I d amounts x = docRhs I (toSDoc d) (symState d amounts) x := by
+  simp [docRhs17, hs, hf]
+
+/-! ### two documents read in one session do not interfere (Model/C17Session.lean) -/
+
+open Mxl.C17.GenSession in
+/-- what `_import.py` writes outside the call is the generated file and the `sys.modules` entry of ITS module name and
+    nothing else (`sessionEffects`, regenerated from the source: the translator refuses any other store, `global`,
+    decorator, module-level state), the name is `mb_<normalised stem>_<digest>` -/
+theorem C17_session_footprint :
+    sessionEffects = [.file, .sysModules] ∧
+    (∀ d : ReadIn, outName d = moduleName d.stem d.digest) ∧
+    (∀ (s : Session) (b : ReadIn) (n : String), n ≠ outName b →
+       sourceOf (readDoc s b).1 n = sourceOf s n ∧ loadedOf (readDoc s b).1 n = loadedOf s n) :=
+  ⟨rfl, outName_eq, readDoc_frame⟩
+
+/-- **Non-interference.**  Read `a` in any session, then any number of further documents: as long as every later document
+    with the same module name has the same generated code (below: the same digest, i.e. the same bytes), the source of the
+    functions of `a`'s model and the text its module was loaded from are still `a`'s — whatever the stems, the order, the
+    earlier contents of the session. -/
+theorem C17_session_noninterference (s : Session) (a : ReadIn) (bs : List ReadIn)
+    (h : ∀ b ∈ bs, outName b = outName a → b.code = a.code) :
+    sourceOf (readAll (readDoc s a).1 bs).1 (readDoc s a).2 = some a.code ∧
+    loadedOf (readAll (readDoc s a).1 bs).1 (readDoc s a).2 = some a.code := by
+  obtain ⟨h0, h1, h2⟩ := readDoc_own s a
+  rw [h0]
+  exact readAll_preserves a (outName a) bs _ h h1 h2
+
+/-- … in terms of the documents: digests of the length `read` takes, and equal digests only for equal generated code
+    (sha256 collision-free on the documents of the session, code a function of the content) -/
+theorem C17_session_independent (s : Session) (a : ReadIn) (bs : List ReadIn)
+    (hlen : ∀ b ∈ bs, b.digest.length = a.digest.length)
+    (hcode : ∀ b ∈ bs, b.digest = a.digest → b.code = a.code) :
+    sourceOf (readAll (readDoc s a).1 bs).1 (readDoc s a).2 = some a.code ∧
+    loadedOf (readAll (readDoc s a).1 bs).1 (readDoc s a).2 = some a.code := by
+  apply C17_session_noninterference
+  intro b hb hn
+  rw [outName_eq, outName_eq] at hn
+  exact hcode b hb (C17_two_docs_independent _ _ _ _ (hlen b hb) hn)
+
+/-- the handles `read` returns are the module names, in order -/
+theorem C17_session_handles (s : Session) (ds : List ReadIn) : (readAll s ds).2 = ds.map outName :=
+  readAll_handles ds s
+
+/-- without the digest in the name the second document takes the first one's file (F-C17-2, repaired): same name,
+    other code — the hypothesis of `C17_session_noninterference` is what fails -/
+example : let a : ReadIn := ⟨"Model-1", "", "code A"⟩; let b : ReadIn := ⟨"model 1", "", "code B"⟩
+    sourceOf (readAll (readDoc Session.empty a).1 [b]).1 (readDoc Session.empty a).2 = some "code B" := by
+  decide +kernel
+example : let a : ReadIn := ⟨"Model-1", "0123456789ab", "code A"⟩; let b : ReadIn := ⟨"model 1", "ba9876543210", "code B"⟩
+    sourceOf (readAll (readDoc Session.empty a).1 [b, a, b]).1 (readDoc Session.empty a).2 = some "code A" := by
+  decide +kernel
+
 /-! ### the naming / glue stage of `generate_mxlpy_code_from_symbolic_repr` and `_codegen` (Model/C17Codegen.lean) -/
 
 /-- `_free_name` terminates: `len(taken) + 1` rounds always suffice (every round meets another element of
@@ -119,9 +184,27 @@ theorem C17_codegen_refs_resolve (s : SymRepr) (hnd : (takenOf s).Nodup) (m : Mo
   simp only [genModule, genModuleWith] at h
   split at h
   · cases h
-  · simp only [Except.ok.injEq] at h
-    subst h
-    exact (genState_spec s hnd).2.2
+  · split at h
+    · cases h
+    · simp only [Except.ok.injEq] at h
+      subst h
+      exact (genState_spec s hnd).2.2
+
+/-- the refusal of two different functions under one name never fires when the function names of derived quantities and
+    reactions are pairwise distinct — on the import path they are the ids of the document's rules and reactions -/
+theorem C17_names_check_passes_on_distinct (s : SymRepr) (hnd : ((compFns s).map (·.fnName)).Nodup) :
+    namesConsistent s = true := by
+  simp only [namesConsistent, List.all_eq_true]
+  intro f hf
+  cases hw : writtenRef (compFns s) f.fnName with
+  | none => rfl
+  | some g =>
+    have hg := List.find?_some hw
+    have hmem := List.mem_of_find?_eq_some hw
+    simp only [Bool.and_eq_true, beq_iff_eq] at hg
+    have := eq_of_name_eq_of_nodup _ hnd f hf g hmem hg.1
+    subst this
+    simp
 
 /-- **No overwrite happens**: the emitted function names are pairwise distinct, and there is one definition per
     function the representation asks for (initial assignments, derived quantities, reactions, computed
@@ -132,13 +215,15 @@ theorem C17_codegen_function_names_distinct (s : SymRepr) (hnd : (takenOf s).Nod
   simp only [genModule, genModuleWith] at h
   split at h
   · cases h
-  · rename_i hdup
-    simp only [Except.ok.injEq] at h
-    subst h
-    refine ⟨(genState_spec s hnd).1, (genState_spec s hnd).2.1, ?_⟩
-    intro kv hkv
-    simp only [List.any_eq_true, not_exists, not_and, Bool.not_eq_true] at hdup
-    exact hdup kv hkv
+  · split at h
+    · cases h
+    · rename_i hdup
+      simp only [Except.ok.injEq] at h
+      subst h
+      refine ⟨(genState_spec s hnd).1, (genState_spec s hnd).2.1, ?_⟩
+      intro kv hkv
+      simp only [List.any_eq_true, not_exists, not_and, Bool.not_eq_true] at hdup
+      exact hdup kv hkv
 
 /-- the witness of F-C17-9: before the repair (names handed out were not added to `taken`) parameters `a` and
     `a_` with initial assignments next to a derived quantity called `init_a` both got `init_a_`; `a` was then
